@@ -10,9 +10,6 @@
   * `Op.noAsRegex` : no free-form pattern in an AS-path set.  `Condition::evalute` never consults
     `AsPathSet.sets`, so the full statement is FALSE for the code as it is — see `C14_full` and
     `C14_full_refuted` at the end (known finding `F14-aspath-regex-ignored`).
-  * `Op.noWellKnown` : no community-set member given by a well-known *name*; that branch of
-    `parse_community` (string case folding) is tied to the reference by the correspondence stream
-    only.
   * `Spec.pathOk` : the route's AS_PATH payload is one `Attribute::decode` accepts.
 -/
 import Rbgp.Policy.Proofs
@@ -29,9 +26,23 @@ def envAll0 : RegexEnv := { valid := fun _ => true, «matches» := fun _ _ => tr
     the reference chain over what its names currently resolve to, nothing a surviving user
     references has changed, and unrelated calls leave the results alone. -/
 theorem eval_eq_reference (env : RegexEnv) (c : Case)
-    (h : ∀ op ∈ c.ops, op.noAsRegex = true ∧ op.noWellKnown = true) :
+    (h : ∀ op ∈ c.ops, op.noAsRegex = true) :
     Spec.check env c (run env c) = .ok :=
   check_run_ok env c h
+
+/-- A community-set member given by a well-known NAME, in any mix of upper and lower case, is
+    compiled to the pattern of the community that name stands for (RFC 1997, 3765, 7611, 7999,
+    8326, 9494) — whatever the regular-expression engine is. -/
+theorem wellknown_community_value (env : RegexEnv) (s : String) (v : Nat)
+    (h : Spec.wellKnownValue s.toLower = some v) :
+    parseCommunity env s = some s!"^{v / 65536}:{v % 65536}$" :=
+  parseCommunity_wellKnown env s v h
+
+/-- … and after every successful add / replace of a community set the listed set contains that
+    pattern, for every table the calls can reach. -/
+theorem wellknown_community_stored (env : RegexEnv) {ar : Bool} {t : Table} (hi : Inv ar t) (op : Op) :
+    Spec.wellKnownOk op (t.step env op).2 (t.step env op).1.dump = true :=
+  wellKnownOk_ok env hi op
 
 /-- One evaluation: `PolicyAssignment::apply` on the objects the assignment holds returns (no
     panic) exactly what the reference chain returns over all their statements in order —
@@ -292,7 +303,7 @@ def sample : Case :=
             .stmtDel "s1" true [] none {},
             .polDel "p1" false true []] }
 
-example : (∀ op ∈ sample.ops, op.noAsRegex = true ∧ op.noWellKnown = true) := by decide +kernel
+example : (∀ op ∈ sample.ops, op.noAsRegex = true) := by decide +kernel
 example : Spec.pathOk probe1.attrs = true := by decide +kernel
 /-- what the sample shows: the route is rejected by the second statement after the first one
     saturated its MED; the three deletes fail with "in use" -/
@@ -327,7 +338,7 @@ example : (drun envAll dsample).map (fun s => match s with
        (.ok, some "global", none, [none, none])] := by decide +kernel
 
 /-- the full-strength statement: no restriction on AS-path patterns -/
-def C14_full : Prop := ∀ (env : RegexEnv) (c : Case), (∀ op ∈ c.ops, op.noWellKnown = true) → Spec.check env c (run env c) = .ok
+def C14_full : Prop := ∀ (env : RegexEnv) (c : Case), Spec.check env c (run env c) = .ok
 
 def witness : Case :=
   { probes := [probe1],
@@ -340,7 +351,7 @@ def witness : Case :=
     every path never matches (replay: corpus/C14/seed-aspath-regex-ignored.case) -/
 theorem C14_full_refuted : ¬ C14_full := by
   intro h
-  have := h envAll witness (by decide +kernel)
+  have := h envAll witness
   revert this
   decide +kernel
 
@@ -360,6 +371,8 @@ end Rbgp.Policy.Props
 #print axioms Rbgp.Policy.Props.crud_ref_closed
 #print axioms Rbgp.Policy.Props.in_use_not_deleted
 #print axioms Rbgp.Policy.Props.referenced_unchanged
+#print axioms Rbgp.Policy.Props.wellknown_community_value
+#print axioms Rbgp.Policy.Props.wellknown_community_stored
 #print axioms Rbgp.Policy.Props.request_stored
 #print axioms Rbgp.Policy.Props.no_stale_objects
 #print axioms Rbgp.Policy.Props.holders_ref_closed
